@@ -392,6 +392,69 @@ func C09(c *ev.Ctx) {
 	c.AddTraces(replayed)
 	c.Set("replayed_behaviours", replayed)
 
+	// (2b) a file-backed disk over an image that already exists: blocks beyond the previous size are new registers and
+	// read as zero, whatever the image held in an even earlier, larger incarnation; the global Size() follows Init
+	for _, mk := range []struct {
+		name string
+		open func(p string, n uint64) (disk.Disk, error)
+	}{{"file/disk", func(p string, n uint64) (disk.Disk, error) { return disk.NewFileDisk(p, n) }},
+		{"file/async_disk", func(p string, n uint64) (disk.Disk, error) { return async_disk.NewFileDisk(p, n) }}} {
+		for _, sz := range [][3]uint64{{4, 1, 4}, {6, 0, 3}, {5, 2, 7}, {3, 3, 5}} {
+			p := filepath.Join(imgDir, "reinc.img")
+			_ = os.Remove(p)
+			bad := ""
+			d1, err := mk.open(p, sz[0])
+			if err != nil {
+				c.Inconclusive("open: %v", err)
+				break
+			}
+			for a := uint64(0); a < sz[0]; a++ {
+				d1.Write(a, pattern(int(a)+1))
+			}
+			d1.Close()
+			d2, err := mk.open(p, sz[1])
+			if err == nil {
+				if d2.Size() != sz[1] {
+					bad = fmt.Sprintf("second incarnation has Size() %d, want %d", d2.Size(), sz[1])
+				}
+				d2.Close()
+			}
+			d3, err := mk.open(p, sz[2])
+			if err != nil {
+				c.Inconclusive("open: %v", err)
+				break
+			}
+			disk.Init(d3)
+			if disk.Size() != sz[2] || d3.Size() != sz[2] {
+				bad = fmt.Sprintf("third incarnation: Size() %d, global Size() %d, want %d", d3.Size(), disk.Size(), sz[2])
+			}
+			for a := uint64(0); a < sz[2] && bad == ""; a++ {
+				want := 0
+				if a < sz[1] && a < sz[0] {
+					want = int(a) + 1
+				}
+				if got := classify(d3.Read(a), 16); got != want {
+					bad = fmt.Sprintf("third incarnation: block %d reads as value %d, want %d (0 = zero block: it did not exist in the second incarnation)", a, got, want)
+				}
+			}
+			d3.Close()
+			_ = os.Remove(p)
+			replayed++
+			if bad != "" {
+				c.Violation("disk.reincarnation."+mk.name, fmt.Sprintf("%s over one image opened with %d, then %d, then %d blocks: %s", mk.name, sz[0], sz[1], sz[2], bad), nil)
+				break
+			}
+		}
+	}
+	// the global Size() reports the disk installed by the LAST Init
+	for _, n := range []uint64{3, 0, 9, 1} {
+		d := disk.NewMemDisk(n)
+		disk.Init(d)
+		if disk.Size() != n {
+			c.Violation("disk.global-size", fmt.Sprintf("after Init(NewMemDisk(%d)) the global Size() is %d", n, disk.Size()), nil)
+			break
+		}
+	}
 	// (3) code -> spec: random driver histories validated by DiskTrace.tla
 	nh := c.Pick(60, 3000)
 	steps := c.Pick(80, 200)
